@@ -140,10 +140,10 @@ Lemma gen_tables_are_the_models :
   list_eqb gdisp_eqb (firstn 4 gen_rankValues) (model_kind_dispatch "rank") && list_eqb gdisp_eqb (firstn 4 gen_compareValues) (model_kind_dispatch "compare") = true.
 Proof. vm_compute. reflexivity. Qed.
 
-(* nothing happens to the operands before the dispatch except the validity tests and the comparison of the two coarse
-   type names (an interface unwrapped up front — seeded/C08-B, C08-D — would show here) *)
+(* no operand is unwrapped (`Elem()`) before the dispatch (an interface unwrapped up front — seeded/C08-B, C08-D — shows here).
+   Only this is demanded of the prelude: its SHAPE (how many statements, if/else or switch) is not pinned, so that a harmless
+   restructuring such as seeded/benign/H02 raises nothing *)
 Lemma gen_preludes_are_the_expected_ones :
-  (length gen_rankValues_prelude =? 4)%nat && (length gen_compareValues_prelude =? 5)%nat &&
   forallb (fun s => negb (match index 0 "Elem()" s with Some _ => true | None => false end)) (gen_rankValues_prelude ++ gen_compareValues_prelude)%list = true.
 Proof. vm_compute. reflexivity. Qed.
 
